@@ -344,7 +344,7 @@ def gen_document(rng, depth=3, allow=("allOf", "anyOf", "oneOf", "not", "if", "d
             if isinstance(s, dict) and rng.random() < 0.6 and refs:
                 # guarded recursion: the reference sits below a property / item position
                 pos = rng.choice(["properties", "items", "prefixItems"])
-                r = {"$ref": rng.choice(refs)}
+                r = ref_context(rng, {"$ref": rng.choice(refs)})
                 if pos == "properties":
                     s.setdefault("properties", {})[rng.choice(NAMES)] = r
                 elif pos == "items":
@@ -353,6 +353,144 @@ def gen_document(rng, depth=3, allow=("allOf", "anyOf", "oneOf", "not", "if", "d
                     s["prefixItems"] = [r]
             defs[n] = s
         doc["$defs"] = defs
+    return doc
+
+
+def ref_context(rng, r):
+    """the recursive reference below a guarded position, alone or inside a combinator"""
+    m = rng.random()
+    if m < 0.45:
+        return r
+    if m < 0.55:
+        return {"anyOf": [r, gen_scalar_assertions(rng)]}
+    if m < 0.65:
+        return {"allOf": [r, gen_scalar_assertions(rng)]}
+    if m < 0.75:
+        return {"if": gen_negatable(rng, 0), "then": r, "else": gen_scalar_assertions(rng)}
+    if m < 0.85:
+        return {"if": gen_negatable(rng, 0), "else": r}
+    if m < 0.93:
+        d = gen_scalar_assertions(rng)
+        d.update(r)
+        return d
+    return {"anyOf": [{"type": "null"}, {"allOf": [r]}]}
+
+
+def gen_negated_recursion(rng):
+    """recursion that passes through a property and through not / if: every schema on the cycle names one property
+    and has no array keywords, so that its negation stays inside the dialect"""
+    n_defs = rng.choice([0, 1, 2])
+    names = ["D%d" % i for i in range(n_defs)]
+    refs = ["#"] + ["#/$defs/" + n for n in names]
+
+    def obj_schema():
+        d = {}
+        if rng.random() < 0.5:
+            d["type"] = "object"
+        n = rng.choice(NAMES)
+        r = {"$ref": rng.choice(refs)}
+        m = rng.random()
+        if m < 0.4:
+            x = {"not": r}
+        elif m < 0.55:
+            x = {"not": r, "type": rng.choice(["object", "null", ["object", "null"]])}
+        elif m < 0.7:
+            x = {"anyOf": [{"not": r}, {"type": rng.choice(["null", "string"])}]}
+        elif m < 0.8:
+            x = {"if": {"type": "object"}, "then": {"not": r}}
+        elif m < 0.9:
+            x = {"if": r, "then": {"type": "null"}}
+        else:
+            x = {"not": {"not": r}}
+        d["properties"] = {n: x}
+        if rng.random() < 0.4:
+            d["required"] = [n]
+        return d
+    doc = obj_schema()
+    if names:
+        doc["$defs"] = {n: obj_schema() for n in names}
+    return doc
+
+
+def _scalar_for(rng, group):
+    d = {}
+    if group == "number":
+        if rng.random() < 0.6:
+            d["type"] = rng.choice(["number", "integer"])
+        for k in rng.sample(["minimum", "maximum", "exclusiveMinimum", "exclusiveMaximum", "multipleOf"], rng.choice([1, 2])):
+            d[k] = rng.choice([1, 2, 3, 4, 6]) if k == "multipleOf" else rng.randint(-2, 9)
+    elif group == "string":
+        if rng.random() < 0.6:
+            d["type"] = "string"
+        for k in rng.sample(["minLength", "maxLength"], rng.choice([1, 2])):
+            d[k] = rng.randint(0, 4)
+    elif group == "enum":
+        if rng.random() < 0.7:
+            d["enum"] = rng.sample(["x", "y", 1, 2, 7, None, True, False, 0, "zz"], rng.choice([1, 2, 3, 4]))
+        else:
+            d["const"] = rng.choice(["x", 1, 7, None, False, 0])
+        if rng.random() < 0.3:
+            d["type"] = rng.choice(TYPES)
+    else:
+        d["type"] = rng.choice(TYPES) if rng.random() < 0.6 else rng.sample(TYPES, rng.choice([1, 2, 3]))
+    return d
+
+
+def _small(rng):
+    return _scalar_for(rng, rng.choice(["number", "string", "enum", "type"]))
+
+
+def gen_group_schema(rng, group):
+    """one conjunct of the keyword group: the operands the merge functions of normalize.py meet"""
+    if group == "object":
+        d = {}
+        if rng.random() < 0.3:
+            d["type"] = "object"
+        ks = rng.sample(["properties", "additionalProperties", "required"], rng.choice([1, 2, 2, 3]))
+        if "properties" in ks:
+            d["properties"] = {n: _small(rng) for n in rng.sample(NAMES, rng.choice([1, 2]))}
+        if "additionalProperties" in ks:
+            d["additionalProperties"] = _small(rng) if rng.random() < 0.75 else False
+        if "required" in ks:
+            d["required"] = rng.sample(NAMES, rng.choice([1, 2]))
+        return d
+    if group == "array":
+        d = {}
+        if rng.random() < 0.3:
+            d["type"] = "array"
+        ks = rng.sample(["items", "prefixItems", "minItems", "maxItems"], rng.choice([1, 2, 2, 3]))
+        if "items" in ks:
+            d["items"] = _small(rng) if rng.random() < 0.85 else False
+        if "prefixItems" in ks:
+            d["prefixItems"] = [_small(rng) if rng.random() < 0.8 else {} for _ in range(rng.choice([1, 2, 3]))]
+        if "minItems" in ks:
+            d["minItems"] = rng.randint(0, 3)
+        if "maxItems" in ks:
+            d["maxItems"] = rng.randint(0, 4)
+        return d
+    return _scalar_for(rng, group)
+
+
+def gen_merge_doc(rng):
+    """conjunctions of two or three schemas of one keyword group, in every syntactic form of a conjunction"""
+    group = rng.choice(["object", "object", "array", "array", "number", "string", "enum", "type"])
+    parts = [gen_group_schema(rng, group) for _ in range(rng.choice([2, 2, 3]))]
+    form = rng.random()
+    if form < 0.4:
+        doc = {"allOf": parts}
+    elif form < 0.6:
+        doc = dict(parts[0])
+        doc["allOf"] = parts[1:]
+    elif form < 0.8:
+        doc = dict(parts[1])
+        doc["$ref"] = "#/$defs/D0"
+        if len(parts) > 2:
+            doc["allOf"] = parts[2:]
+        doc["$defs"] = {"D0": parts[0]}
+    elif form < 0.9:
+        doc = {"allOf": [{"anyOf": [parts[0], _small(rng)]}] + parts[1:]}
+    else:
+        doc = {"properties": {"a": {"allOf": parts}}}
     return doc
 
 
@@ -391,37 +529,57 @@ def constants_of(schema, nums, lens, names, enums):
 
 
 def instance_grid(schema, rng, limit=120):
-    """instances on and next to every constant of the schema"""
+    """instances on and next to every constant of the schema; arrays and objects get room of their own when the
+    schema talks about them"""
     nums, lens, names, enums = set(), set(), set(), []
     constants_of(schema, nums, lens, names, enums)
     scal = [None, True, False, "", "string", 0, 1, -1, 42]
-    for c in list(nums)[:8]:
+    for c in sorted(nums)[:8]:
         scal += [c - 1, c, c + 1, c * 2]
-    for l in list(lens)[:5] + [0, 1]:
+    for l in sorted(lens)[:5] + [0, 1]:
         for d in (-1, 0, 1):
             if l + d >= 0:
                 scal.append("x" * (l + d))
     scal += enums[:8] + ["#", "##", "###"]
-    seen, out = set(), []
+    txt = json.dumps(schema)
+    has_arr = any('"%s"' % k in txt for k in ("items", "prefixItems", "minItems", "maxItems", "contains", "array"))
+    has_obj = any('"%s"' % k in txt for k in ("properties", "required", "additionalProperties", "dependentRequired", "object"))
 
-    def add(x):
-        k = json.dumps(x, sort_keys=True) + type(x).__name__
-        if k not in seen:
-            seen.add(k)
-            out.append(x)
-    for s in scal:
-        add(s)
+    def dedupe(xs, cap):
+        seen, out = set(), []
+        for x in xs:
+            k = json.dumps(x, sort_keys=True) + type(x).__name__
+            if k not in seen:
+                seen.add(k)
+                out.append(x)
+        return out[:cap]
+    S = dedupe(scal, 70)
+    pool = S[:]
     names = sorted(names)[:3] or ["a"]
+    A = []
     for l in sorted(lens)[:4] + [0, 1, 2]:
         for d in (-1, 0, 1):
             if 0 <= l + d <= 5:
-                add([rng.choice(scal) for _ in range(l + d)])
-    for _ in range(30):
+                A.append([rng.choice(pool) for _ in range(l + d)])
+    for L in range(0, 5):
+        for _ in range(12 if has_arr else 2):
+            A.append([rng.choice(pool) for _ in range(L)])
+    O = []
+    for _ in range(60 if has_obj else 12):
         obj = {}
         for n in names + ["zz"]:
             if rng.random() < 0.55:
                 m = rng.random()
-                obj[n] = rng.choice(scal) if m < 0.7 else ({rng.choice(names): rng.choice(scal)} if m < 0.85 else [rng.choice(scal)])
-        add(obj)
-        add([rng.choice(out) for _ in range(rng.choice([1, 2, 3]))])
-    return out[:limit]
+                obj[n] = rng.choice(pool) if m < 0.7 else ({rng.choice(names): rng.choice(pool)} if m < 0.85 else [rng.choice(pool)])
+        O.append(obj)
+    nested = []
+    for _ in range(12):
+        nested.append([rng.choice(O + A) for _ in range(rng.choice([1, 2, 3]))])
+        o = {}
+        for n in names:
+            if rng.random() < 0.7:
+                o[n] = rng.choice(O + A)
+        nested.append(o)
+    A = dedupe(A, 60 if has_arr else 10)
+    O = dedupe(O, 60 if has_obj else 12)
+    return S + A + O + dedupe(nested, 24)
